@@ -316,5 +316,104 @@ def retry_case(draw):
             'tail': draw(st.sampled_from([0.5, 1.3, 2.6])), 'schedule': sched}
 
 
+# ---------------------------------------------------------------- driver level: nothing reaches the device through a closed USB link
+def run_usb(case):
+    """Real UsbDriver on a fake CfUsb (the USB side only). Script of connect / send / close (possibly failing half way) / send."""
+    import time
+    import cflib.crtp.usbdriver as ud
+    from cflib.crtp.crtpstack import CRTPPacket
+    out = Outcome()
+    world = {'devices': []}
+
+    class FakeCfUsb:
+        def __init__(self, devid=0):
+            self.dev = object()
+            self.sent = []
+            self.closed = False
+            self.crtp = None
+            self.fault = None
+            world['devices'].append(self)
+
+        def set_crtp_to_usb(self, flag):
+            if self.fault == 'set_crtp' and not flag:
+                raise IOError('injected: device unplugged')
+            self.crtp = flag
+
+        def close(self):
+            if self.fault == 'close':
+                raise IOError('injected: device unplugged')
+            self.closed = True
+
+        def send_packet(self, data):
+            self.sent.append((time.time(), tuple(data)))
+
+        def receive_packet(self):
+            time.sleep(0.0005)
+            return ()
+
+        def get_serials(self):
+            return []
+    saved = ud.CfUsb
+    ud.CfUsb = FakeCfUsb
+    drv = ud.UsbDriver()
+    is_open = False
+    seq = 0
+    expected = []       # per device: packets sent while the link was open
+    after_close = []
+    try:
+        for step in case['steps']:
+            k = step['op']
+            if k == 'connect' and not is_open:
+                try:
+                    drv.connect('usb://0', None, lambda m: None)
+                except Exception as e:  # noqa
+                    out.fail('usb:reconnect-refused', 'steps %r: %r' % (case['steps'], e))
+                    break
+                is_open = True
+                expected.append([])
+                world['devices'][-1].fault = None
+            elif k == 'send':
+                pk = CRTPPacket()
+                pk.set_header(seq % 15, seq % 4)
+                pk.data = bytes([seq & 0xff, 0x42])
+                n_before = [len(d.sent) for d in world['devices']]
+                drv.send_packet(pk)
+                wire = (pk.header,) + tuple(pk.data)
+                got = [len(d.sent) - n for d, n in zip(world['devices'], n_before)]
+                if is_open:
+                    expected[-1].append(wire)
+                elif any(got):
+                    after_close.append(wire)
+                seq += 1
+            elif k == 'close' and is_open:
+                world['devices'][-1].fault = step.get('fault')
+                drv.close()
+                is_open = False
+        if is_open:
+            drv.close()
+    finally:
+        ud.CfUsb = saved
+        th = getattr(drv, '_thread', None)
+        if th is not None:
+            th.sp = True
+    desc = 'steps %r' % [(s_['op'], s_.get('fault')) for s_ in case['steps']]
+    if after_close:
+        out.fail('usb:sent-on-closed-link', '%s: packets %r reached the device after close() had returned' % (desc, after_close[:3]))
+    for d, want in zip(world['devices'], expected):
+        got = [w for t, w in d.sent]
+        if got[:len(want)] != want:
+            out.fail('usb:send-order-or-loss', '%s: device got %r, sent while open %r' % (desc, got[:6], want[:6]))
+    faults = [s_.get('fault') for s_ in case['steps'] if s_['op'] == 'close' and s_.get('fault')]
+    out.nontrivial = bool(faults) and any(s_['op'] == 'send' for s_ in case['steps'])
+    out.feat('usb-driver', 'close-fault' if faults else 'clean-close')
+    return out
+
+
+_usb_step = st.one_of(st.just({'op': 'send'}), st.just({'op': 'send'}), st.just({'op': 'connect'}),
+                      st.sampled_from([None, None, 'set_crtp', 'close']).map(lambda f: {'op': 'close', 'fault': f}))
+usb_case = st.fixed_dictionaries({'steps': st.lists(_usb_step, min_size=1, max_size=10).map(lambda l: [{'op': 'connect'}] + l)})
+
+
 def subchecks(tier):
-    return [Sub('timelines', run_retry, strategy=retry_case(), examples={'quick': 2000, 'thorough': 60000})]
+    return [Sub('timelines', run_retry, strategy=retry_case(), examples={'quick': 2000, 'thorough': 60000}),
+            Sub('usb-driver', run_usb, strategy=usb_case, examples={'quick': 300, 'thorough': 6000})]
